@@ -57,8 +57,11 @@ def khatrirao(*matrices: np.ndarray, reverse: bool = False) -> np.ndarray:
 
     # Computation
     P = matrices[0]
+    nrows = P.shape[0]
     for i in matrices[1:]:
-        P = np.reshape(i, newshape=(-1, 1, ncolFirst)) * np.reshape(
-            P, newshape=(1, -1, ncolFirst), order="F"
+        # explicit row counts: -1 cannot be inferred next to a zero-length axis
+        P = np.reshape(i, newshape=(i.shape[0], 1, ncolFirst)) * np.reshape(
+            P, newshape=(1, nrows, ncolFirst), order="F"
         )
-    return np.reshape(P, newshape=(-1, ncolFirst), order="F")
+        nrows *= i.shape[0]
+    return np.reshape(P, newshape=(nrows, ncolFirst), order="F")
